@@ -12,7 +12,7 @@
 // Line protocol.  The pool is 10.0.0.0/29, gateway a1, usable a2..a6 (a<n> = base + n); m<k> = a MAC;
 // c<j> = the j-th circuit-id of THAT MAC ("cid-m<k>-<j>": circuit-ids are never shared between MACs here).
 //
-//	new radius|noradius <leaseSecs>
+//	new radius|noradius <leaseSecs> [h1|h5]   (h1/h5: the hardware-address length of m5; m6 has 7 bytes, m7 has 16)
 //	disc m<k> c<j>|-                 DISCOVER (relayed, giaddr set, when a circuit-id is given)
 //	req  m<k> a<n> c<j>|-            REQUEST with option 50 = a<n>
 //	rel  m<k>                        RELEASE
@@ -27,13 +27,18 @@
 //	                                 has taken the lease out of the table; the second one runs to completion; then
 //	                                 the first one is let go.  Refused (`badop`) when the second one would need the
 //	                                 held lock (it would end a live session of its own).
+//	estgap m<k> a<n> c<j>|- / <rel|dec|cleanup …>
+//	                                 a REQUEST with the given termination handled inside its unlock window: after
+//	                                 handleRequest put the lease into the table and dropped the lease lock, before it
+//	                                 sets up cache entries, QoS, NAT and the Accounting-Start; `… notrun` when the
+//	                                 REQUEST was refused before that point
 //	shutdown                         what Server.Start does when its context is cancelled
 //
-// Observation:  <reply> t=<s> L=<leases> P=<pool bindings> F=<free list, in order> U=<unavailable>
+// Observation:  <reply> t=<s> L=<leases> C=<circuit-id index: m<k>.c<j>:<address>:<expiry>> P=<pool bindings> F=<free list, in order> U=<unavailable>
 //
 //	Q=<qos egress keys> Qi=<qos ingress keys> Qn=<manager count> N=<nat manager table> Nk=<subscriber_nat keys> Nn=<count>
 //	Km=<subscriber_pools keys> Kv=<vlan keys> Kc=<circuit_id_subscribers keys> Kh=<circuit_id_map keys>
-//	A=<accounting: ordinal:m<k>:<starts>:<stops>,… by Acct-Session-Id in order of first appearance>
+//	A=<accounting: ordinal:m<k>:<starts>:<stops>[:x],… by Acct-Session-Id in order of first appearance; x = its Stop came first>
 package main
 
 import (
@@ -221,14 +226,42 @@ func tagNum(tok string, tag byte) (int, bool) {
 	return n, true
 }
 
-func macOf(k int) net.HardwareAddr { return net.HardwareAddr{0x02, 0, 0, 0, byte(k >> 8), byte(k)} }
+// shortLen is the hardware-address length of m5 in the current run (`new … h1|h5`; 5 when not given).
+var shortLen = 5
 
-func macTokStr(s string) string {
-	m, err := net.ParseMAC(s)
-	if err != nil || len(m) != 6 || m[0] != 2 {
-		return "m?" + s
+// macOf: m1..m4, m8, m9 are Ethernet addresses; m5 has hlen 1 or 5 (chosen by `new`), m6 hlen 7, m7 hlen 16 (chaddr may
+// be 1..16 bytes long; net.ParseMAC reads the text form back only for 6/8/20 bytes).  Only ONE address per run is
+// shorter than 6 bytes: ebpf.MACToUint64 maps every such address to the cache key 0.
+func macOf(k int) net.HardwareAddr {
+	switch k {
+	case 5:
+		return net.HardwareAddr{0x02, 0, 0, 0, 5}[5-shortLen:]
+	case 6:
+		return net.HardwareAddr{0x02, 0, 0, 0, 1, 6, 0xaa}
+	case 7:
+		return net.HardwareAddr{0x02, 0, 0, 0, 1, 7, 1, 2, 3, 4, 5, 6, 7, 8, 9, 10}
 	}
-	return fmt.Sprintf("m%d", int(m[4])<<8|int(m[5]))
+	return net.HardwareAddr{0x02, 0, 0, 0, byte(k >> 8), byte(k)}
+}
+
+// macTokStr maps the text form of a hardware address back to its token
+func macTokStr(s string) string {
+	for k := 0; k <= 99; k++ {
+		if macOf(k).String() == s {
+			return fmt.Sprintf("m%d", k)
+		}
+	}
+	return "m?" + s
+}
+
+// macTokKey maps a subscriber_pools key (ebpf.MACToUint64 of the address) back to the token
+func macTokKey(key uint64) string {
+	for k := 1; k <= 99; k++ {
+		if bngebpf.MACToUint64(macOf(k)) == key {
+			return fmt.Sprintf("m%d", k)
+		}
+	}
+	return fmt.Sprintf("m?%x", key)
 }
 
 func cidBytes(k, j int) []byte { return []byte(fmt.Sprintf("cid-m%d-%d", k, j)) }
@@ -435,8 +468,13 @@ func le32Toks(m *ebpf.Map) []string {
 }
 
 func (r *run) snapshot() string {
-	byMAC, _ := r.srv.LeasesForVerif()
-	var ls []string
+	byMAC, byCid := r.srv.LeasesForVerif()
+	var ls, cs []string
+	for _, l := range byCid {
+		b, _ := hex.DecodeString(l.Key)
+		cs = append(cs, fmt.Sprintf("%s:%s:%d", cidTokBytes(b), ipTok(l.IP), int64(l.ExpiresAt.Sub(r.t0)/time.Second)))
+	}
+	sortToks(cs)
 	for _, l := range byMAC {
 		cid := "-"
 		if len(l.CircuitID) > 0 {
@@ -473,7 +511,7 @@ func (r *run) snapshot() string {
 	// cache maps
 	var km, kv, kc, kh []string
 	for _, k := range mapKeys(kmaps["sub"]) {
-		km = append(km, macTokStr(bngebpf.Uint64ToMAC(binary.LittleEndian.Uint64(k)).String()))
+		km = append(km, macTokKey(binary.LittleEndian.Uint64(k)))
 	}
 	for _, k := range mapKeys(kmaps["vlan"]) {
 		kv = append(kv, "x"+hex.EncodeToString(k))
@@ -500,13 +538,14 @@ func (r *run) snapshot() string {
 	type sess struct {
 		user          string
 		starts, stops int
+		stopFirst     bool // the first record of this session was a Stop
 	}
 	var order []string
 	bySid := map[string]*sess{}
 	for _, rc := range recs {
 		s := bySid[rc.sid]
 		if s == nil {
-			s = &sess{user: rc.user}
+			s = &sess{user: rc.user, stopFirst: rc.stop}
 			bySid[rc.sid] = s
 			order = append(order, rc.sid)
 		}
@@ -519,10 +558,14 @@ func (r *run) snapshot() string {
 	var as []string
 	for i, sid := range order {
 		s := bySid[sid]
-		as = append(as, fmt.Sprintf("%d:%s:%d:%d", i+1, macTokStr(s.user), s.starts, s.stops))
+		x := ""
+		if s.stopFirst && s.starts > 0 {
+			x = ":x" // its Stop reached the server before its Start
+		}
+		as = append(as, fmt.Sprintf("%d:%s:%d:%d%s", i+1, macTokStr(s.user), s.starts, s.stops, x))
 	}
-	return fmt.Sprintf("t=%d L=%s P=%s F=%s U=%s Q=%s Qi=%s Qn=%d N=%s Nk=%s Nn=%d Km=%s Kv=%s Kc=%s Kh=%s A=%s",
-		int64(time.Since(r.t0)/time.Second), join(ls), join(ps), join(fs), join(us),
+	return fmt.Sprintf("t=%d L=%s C=%s P=%s F=%s U=%s Q=%s Qi=%s Qn=%d N=%s Nk=%s Nn=%d Km=%s Kv=%s Kc=%s Kh=%s A=%s",
+		int64(time.Since(r.t0)/time.Second), join(ls), join(cs), join(ps), join(fs), join(us),
 		join(le32Toks(kmaps["qose"])), join(le32Toks(kmaps["qosi"])), r.qos.GetSubscriberCount(),
 		join(ns), join(le32Toks(kmaps["natsub"])), r.nat.GetAllocationCount(),
 		join(sortToks(km)), join(sortToks(kv)), join(sortToks(kc)), join(sortToks(kh)), join(as))
@@ -624,12 +667,23 @@ func (r *run) Do(op string) string {
 		return "badop"
 	}
 	if f[0] == "new" {
-		if len(f) != 3 || (f[1] != "radius" && f[1] != "noradius") {
+		if (len(f) != 3 && len(f) != 4) || (f[1] != "radius" && f[1] != "noradius") {
 			return "badop"
 		}
 		secs, err := strconv.Atoi(f[2])
 		if err != nil || secs < 1 || secs > 100000 {
 			return "badop"
+		}
+		shortLen = 5
+		if len(f) == 4 {
+			switch f[3] {
+			case "h1":
+				shortLen = 1
+			case "h5":
+				shortLen = 5
+			default:
+				return "badop"
+			}
 		}
 		if e := r.init(f[1] == "radius", secs); e != "" {
 			return e
@@ -795,6 +849,39 @@ func (r *run) Do(op string) string {
 			stalled = "stalled"
 		}
 		reply = "split " + stalled + " " + r1 + " " + r2
+	case "estgap":
+		// estgap m<k> a<n> c<j>|- / <rel|dec|cleanup …>
+		if len(f) < 6 || f[4] != "/" {
+			return "badop"
+		}
+		k, ok := tagNum(f[1], 'm')
+		n, ok2 := tagNum(f[2], 'a')
+		if !ok || !ok2 || k < 1 || k > maxMACs || n > 15 {
+			return "badop"
+		}
+		var cid []byte
+		if f[3] != "-" {
+			j, ok := tagNum(f[3], 'c')
+			if !ok || j < 1 || j > maxCids {
+				return "badop"
+			}
+			cid = cidBytes(k, j)
+		}
+		in := f[5:]
+		if !(len(in) == 1 && in[0] == "cleanup") {
+			if _, _, ok := r.termPacket(in); !ok {
+				return "badop"
+			}
+		}
+		ir := "notrun"
+		r.srv.SetRequestGapForVerif(func() {
+			r.srv.SetRequestGapForVerif(nil)
+			ir, _ = r.inner(in)
+			syncWait() // the Accounting-Stop of the termination (if any) is delivered before the REQUEST goes on
+		})
+		rr := r.send(r.packet(dhcpv4.MessageTypeRequest, k, ipOf(n), cid))
+		r.srv.SetRequestGapForVerif(nil)
+		reply = "estgap " + rr + " " + ir
 	case "shutdown":
 		if len(f) != 1 {
 			return "badop"
